@@ -129,6 +129,9 @@ fn resolve(tree: &BTreeMap<String, Node>, path: &str) -> Option<Node> {
             _ => cur = next,
         }
     }
+    if cur.is_empty() {
+        return Some(Node::Dir);
+    }
     tree.get(&cur).cloned()
 }
 
@@ -398,7 +401,7 @@ pub fn replay(case: &serde_json::Value) -> i32 {
 pub fn run(tier: Tier) -> i32 {
     let ctx = Ctx::new("C05", "exploration", tier);
     // trees: all subsets of ENTRIES up to a size bound
-    let max_entries = tier.pick(2, 4);
+    let max_entries = tier.pick(2, 3);
     let n = ENTRIES.len();
     let mut trees: Vec<Vec<Ent>> = vec![];
     for mask in 0u32..(1 << n) {
@@ -419,7 +422,7 @@ pub fn run(tier: Tier) -> i32 {
         cur = next;
     }
     // a backslash before an ordinary character and fields that start with `!`/`^` in brackets
-    for extra in ["[!a]", "[^a]", "[a-b]", "*/a", "*/.a", "s*/a", "*/*", "*/*/a", "sub*/?", "?ub/a", "*/", "./*", "sub/*"] {
+    for extra in ["[!a]", "[^a]", "[a-b]", "*/a", "*/.a", "s*/a", "*/*", "*/*/a", "sub*/?", "?ub/a", "*/", "./*", "sub/*", "*/..", "*/../*", "sub/../s*", "*/./a", "s*/../.a"] {
         fields.push(extra.chars().collect());
     }
     // a literal backslash followed by wildcards (the backslash itself is always quoted)
